@@ -56,6 +56,7 @@ type c13Case struct {
 	Kind    string    `json:"kind"`
 	Reqs    []c13Req  `json:"reqs"`
 	Reloads int       `json:"reloads"`
+	Bad     []int     `json:"bad"` // reloads whose subnet file does not exist
 	Script  []c13Act  `json:"script"`
 	Iters   int       `json:"iters"`
 	BoundMs int       `json:"bound_ms"`
@@ -307,6 +308,11 @@ func c13Sched(c c13Case, dir string) (res c13Res) {
 	files := make([]string, c.Reloads)
 	for j := range files {
 		files[j] = c13WriteSubnets(dir, j+1)
+	}
+	for _, j := range c.Bad {
+		if j < len(files) {
+			files[j] = filepath.Join(dir, "no_such_subnets.toml")
+		}
 	}
 	launchReq := func(i int) {
 		if i >= k || started[i] {
